@@ -53,3 +53,28 @@ Print Assumptions C07_hidden_after_visible.
 Theorem C07_wildcard : forall wc, map target_name (expand_wildcard wc) = wc.
 Proof. exact wildcard_names. Qed.
 Print Assumptions C07_wildcard.
+
+From Coq Require Import String.
+From Verif Require Import Model.PyMini Model.PrimsApi Gen.SrcNaming Proofs.SrcNaming.
+Open Scope list_scope.
+
+(* ---- Tie by translation (re-checked on every run against the CURRENT source of beanquery/compiler.py).
+   Gen/SrcNaming.v holds the PyMini translation of compiler.get_target_name made by harness/vf/py2mini.py +
+   src_api.py from inspect.getsource of the imported function.  Interpreting it on ANY parsed target - the object
+   with .name (alias or None) and .expression (a Column node with .name, or a node of any other class with .text) -
+   returns exactly Model/Naming.target_name, the rule every naming theorem above is stated over.  isinstance, the
+   attribute reads and str.strip are the primitives of Model/PrimsApi.v (strip := Model/Naming.strip). *)
+Theorem C07_source_target_name : forall (call_ref : nat -> list pv -> pv) (msg : string -> list pv -> pv)
+    (tag : list Z) (t : ptarget),
+  zeqb tag column_tag = false ->
+  call_function call_ref (prim_api naming_lib msg) get_target_name [enc_target tag t] =
+  Ok (PV (VStr (target_name t))).
+Proof. exact target_name_src. Qed.
+Print Assumptions C07_source_target_name.
+
+(* Non-vacuity: the translated function on `  (a + 1) ` without alias, expression of class BinaryOp ("B"). *)
+Example C07_source_example :
+  call_function (fun _ _ => PNone) (prim_api naming_lib (fun _ _ => PNone)) get_target_name
+    [enc_target [66] {| p_alias := None; p_column := None; p_text := [32; 97; 43; 49; 32] |}]
+  = Ok (PV (VStr [97; 43; 49])).
+Proof. reflexivity. Qed.
